@@ -296,6 +296,28 @@ def run_head(case):
                           {"z1": z, "z2": z2})
             return res
         res.see("noise_invariance_checks")
+        if B is not None and B >= 2 and case["extreme"] == "none":
+            # The per-row log-densities describe independent rows.  Rows whose
+            # standardised noise coincides for four different keys cannot come
+            # from that distribution (probability < 1e-12 per case).
+            shared = True
+            for kk in range(4):
+                sk = s if kk == 0 else need("sample", pol.sample, obs,
+                                            jax.random.fold_in(key, 1000 + kk))
+                if sk is None:
+                    return res
+                zk = ((np.asarray(sk, np.float64) - mean) / std).reshape(-1, A)
+                tolz = 1e-3 * (1 + np.abs(zk[0])) + 1e-5 * np.max(
+                    np.abs(mean.reshape(-1, A)) / std.reshape(-1, A), axis=0)
+                shared &= bool(np.all(np.abs(zk - zk[0]) <= tolz))
+            if shared:
+                res.violation(f"C13/{tag}/batch_rows_share_noise",
+                              f"batch of {B}: every row receives the same standard "
+                              "noise vector for each of four keys; the rows are "
+                              "not the independent Gaussians that "
+                              "log_probability / entropy describe", {"z": z})
+                return res
+            res.see("batch_row_independence_checks")
         res.see("gaussian_rows" if head == "gaussian" else "tanh_gaussian_rows",
                 int(np.prod(bshape)) if bshape else 1)
     res.nontrivial = case["extreme"] != "none" or B in (None, 1)
